@@ -9,12 +9,12 @@ FUNCTIONS = ['emd.spectra.hilberthuang (dense and sparse)', 'emd.spectra.hilbert
 BOUNDS = {
     'quick': 'frequency and amplitude arrays [T x M] <= 2x2 of unbounded symbolic reals (negative, out-of-range and exactly-on-edge '
              'values are covered by the solver), bin sets from the real define_hist_bins: linear with 1..3 bins and log with 2 bins, '
-             'modes {energy, amplitude}, dense and sparse output, 1-D marginal',
+             'modes {energy, amplitude}, dense and sparse output, 1-D marginal; C-ordered inputs and, at 2x2, transposed (Fortran-ordered) views for either or both arrays',
     'thorough': '[T x M] <= 3x2, linear 1..4 bins, log 2..3 bins, both modes',
 }
 OUTSIDE = 'larger arrays; float rounding of bin edges; NaN/inf frequencies'
 ASSUMPTIONS = ['sparse.coo_matrix modelled as dense accumulation where duplicate coordinates add (real scipy used in replays)']
-REQUIRED_CLASSES = ['freq-below-range', 'freq-above-range', 'freq-in-range', 'two-samples-same-cell']
+REQUIRED_CLASSES = ['freq-below-range', 'freq-above-range', 'freq-in-range', 'two-samples-same-cell', 'non-contiguous-input']
 EXPECTED_LABELS = ['never-raises', 'dense-equals-bruteforce', 'sparse-equals-dense', 'marginal-1d-equals-bruteforce',
                    'marginals-agree', 'total-in-range']
 BUDGET_S = {'quick': 150, 'thorough': 900}
@@ -37,13 +37,24 @@ def configs(tier):
                     continue
                 out.append(('%dx%d-%s%d[%g,%g]-%s' % (T, M, sc, nb, lo, hi, mode),
                             {'T': T, 'M': M, 'scale': 'linear' if sc == 'lin' else 'log', 'lo': lo, 'hi': hi, 'nbins': nb, 'mode': mode}))
+    # memory layout: the arrays handed in need not be C-contiguous (transposed views of [M x T] arrays, Fortran order)
+    for lay in (('Ffa', 'Fa', 'Ff') if tier == 'quick' else ('Ffa', 'Fa', 'Ff')):
+        for (T, M) in ([(2, 2)] if tier == 'quick' else [(2, 2), (3, 2)]):
+            for mode in ('energy', 'amplitude'):
+                out.append(('%dx%d-lin2[1,5]-%s-layout%s' % (T, M, mode, lay),
+                            {'T': T, 'M': M, 'scale': 'linear', 'lo': 1, 'hi': 5, 'nbins': 2, 'mode': mode, 'layout': lay}))
     return out
 
 
 def harness(h):
     T, M, nb, mode = h.params['T'], h.params['M'], h.params['nbins'], h.params['mode']
-    f = h.reals('f', T * M).reshape(T, M)
-    a = h.reals('a', T * M).reshape(T, M)
+    lay = h.params.get('layout', 'C')
+    f = h.reals('f', T * M)
+    a = h.reals('a', T * M)
+    f = f.reshape(M, T).T if 'f' in lay[1:] else f.reshape(T, M)
+    a = a.reshape(M, T).T if 'a' in lay[1:] else a.reshape(T, M)
+    if lay != 'C':
+        h.note('non-contiguous-input')
     edges, centres = emd.spectra.define_hist_bins(h.params['lo'], h.params['hi'], nb, scale=h.params['scale'])
     try:
         dense = emd.spectra.hilberthuang(f, a, edges, mode=mode)
